@@ -22,7 +22,8 @@ def valid_cases(ctx, n):
         m = g.schema()
         if ctx.rng.chance(1, 3):
             # directives and types are separate name spaces: a directive may be called like a type of the schema
-            ds = [d["name"] for d in m["defs"] if d["k"] == "directive"]
+            # (not `mark` / `once`: the fault operators refer to those two by name)
+            ds = [d["name"] for d in m["defs"] if d["k"] == "directive" and d["name"] not in ("mark", "once")]
             ts = [d["name"] for d in m["defs"] if d["k"] in ("enum", "object", "scalar", "input", "interface", "union")]
             if ds and ts:
                 TG.rename_directive(m, ctx.rng.choice(ds), ctx.rng.choice(ts))
